@@ -447,10 +447,12 @@ def spelling_shard(shard):
     prog = ["start: addi x1, x0, 1", "add x2, x1, x1", "lw x3, 4(x2)", "beq x1, x2, start", "jal x1, start+0x8", "li x5, 0x12345", "end:"]
     base = "\n".join(prog) + "\n"
     for i in range(len(prog) + 1):
-        for ins_line in ("", "   ", "# comment", "\t# x: add x1, x1, x1", "  \t  "):
+        for ins_line in ("", "   ", "# comment", "\t# x: add x1, x1, x1", "  \t  ", '# 12" remain', "# it's", "#"):
             same(base, "\n".join(prog[:i] + [ins_line] + prog[i:]) + "\n", "blank-or-comment-line")
     for i in range(len(prog)):
         for f in (lambda s: "    " + s, lambda s: "\t" + s, lambda s: s + "   ", lambda s: s + " # trailing comment", lambda s: s + "\t#c",
+                  lambda s: s + '  # 3.5" floppy', lambda s: s + " # it's", lambda s: s + ' # a "quoted" word', lambda s: s + " # x: .data # more", lambda s: s + " #",
+                  lambda s: s + " # add x1, x2, x3", lambda s: s + " # ,;:()[]",
                   lambda s: s.replace(", ", ","), lambda s: s.replace(", ", " , "), lambda s: s.replace(", ", ",\t"), lambda s: s.replace("(", " ( ").replace(")", " ) "),
                   lambda s: s.replace(": ", ":"), lambda s: s.replace(": ", " :  "), lambda s: s.replace(" ", "  ")):
             v = list(prog)
